@@ -167,7 +167,18 @@ def make_case(inp):
         sheets = inp["sheets"]
     else:
         w = rowio.XlsxRowWriter(path)
-        if inp["kind"] == "write_rows":
+        if inp.get("calls"):
+            # the table handed over in portions: a list of rows goes to write_rows, a single row to write_row
+            i = 0
+            for n in inp["calls"]:
+                if n == 0:
+                    w.write_row(inp["table"][i])
+                    i += 1
+                else:
+                    w.write_rows(inp["table"][i:i + n])
+                    i += n
+            assert i == len(inp["table"])
+        elif inp["kind"] == "write_rows":
             w.write_rows(inp["table"])
         else:
             for r in inp["table"]:
@@ -295,5 +306,14 @@ def gen_inputs(tier, rnd):
     for i in range(n // 2):
         table = c15.rnd_table(rnd)
         yield {"kind": "write_rows" if i % 2 else "write_row", "table": table, "sheet": 1, "cid": False}
+    for i in range(n // 3):
+        table = c15.rnd_table(rnd)
+        calls, left = [], len(table)
+        while left > 0:
+            k = rnd.choice([0, 0, 1, 2, 3])
+            k = min(k, left)
+            calls.append(k)
+            left -= max(k, 1)
+        yield {"kind": "write_rows", "table": table, "sheet": 1, "cid": False, "calls": calls}
     for table in ([], [[]], [[], ["a"]], [["a"], []], [["a", ""], ["b", ""]], [["", ""], ["", ""]], [[""]], [["a", "b", "c"], ["d"]]):
         yield {"kind": "write_rows", "table": table, "sheet": 1, "cid": False}
